@@ -324,6 +324,16 @@ def run(ctx):
                     o.holds(cs, init[0], f"{nvar} starts at 0")
                 else:
                     o.violated(cs, w, f"scan index `{nvar}` does not start at 0 for every edge")
+                # exits of the scan: only "overlap found" (flag set, then break) or exhaustion
+                pw = astx.Parents(cs.node)
+                for br in [x for x in ast.walk(w) if isinstance(x, (ast.Break, ast.Return))]:
+                    blk = pw.parent(br)
+                    sibs = blk.body if br in getattr(blk, "body", []) else getattr(blk, "orelse", [])
+                    flagged = any(isinstance(x, ast.Assign) and astx.const_value(x.value) == 1 for x in sibs)
+                    found = isinstance(blk, ast.If) and "issubset" in txt(blk.test) and br in blk.body
+                    if not (flagged and found):
+                        o.violated(cs, br, f"the scan over the other cliques can stop early (`{txt(blk.test) if isinstance(blk, ast.If) else 'break'}`) without having compared every clique: an "
+                                           "overlapping clique is overlooked, both get score 0 and their shared edge is covered twice")
                 ifs = [s for s in w.body if isinstance(s, ast.If)]
                 if ifs and isinstance(ifs[0].test, ast.BoolOp) and isinstance(ifs[0].test.op, ast.And):
                     skip = [v for v in ifs[0].test.values if isinstance(v, ast.Compare) and nvar in astx.names_in(v) and isinstance(v.ops[0], ast.NotEq)]
